@@ -1883,6 +1883,7 @@ class Evaluator:
         out = []
         for x, cond in res.conds.items():
             t = body.blocks[x]["term"]
+            cond = self._int_scrutinee(body, t, cond)
             tgt_vals = {}
             for v, b in t["arms"]:
                 tgt_vals.setdefault(b, []).append(int(v))
@@ -1980,7 +1981,7 @@ class Evaluator:
         gs = list(self.guards(res, p, body, _depth))
         t = body.blocks[p]["term"]
         if t["k"] == "switch" and p in res.conds:
-            cond = res.conds[p]
+            cond = self._int_scrutinee(body, t, res.conds[p])
             vals = [int(v) for v, b in t["arms"] if b == j]
             arms_all = [int(v) for v, _ in t["arms"]]
             if j == t["otherwise"] and not vals:
@@ -1992,6 +1993,17 @@ class Evaluator:
             elif len(vals) > 1 and j != t["otherwise"]:
                 gs.append((cond, ("in", tuple(vals))))      # `A | B => ..`: one arm for several values
         return gs
+
+    def _int_scrutinee(self, body, t, cond):
+        """the value a `switch` tests, as a linear term when the operand is an integer variable (`match n { 0 => .., MAX => .. }` on a loop variable): its
+        arms then read as comparisons with the pattern constants, like `if n == 0`"""
+        if isinstance(cond, Lin) or tag(cond) not in ("phi", "hi", "lo", "param", "field", "hload", "payload", "upvar"):
+            return cond
+        opl = place_of(t["op"]) if t.get("op") else None
+        op_ty = body.locals[opl["l"]]["ty"] if opl is not None and not opl["proj"] else None
+        if op_ty is not None and INT_TY.match(op_ty):
+            return as_lin(cond)
+        return cond
 
     def _shape_is_bool(self, c):
         """a condition term that can only be a boolean (used when the operand's type is not at hand: a field of a payload)"""
@@ -2187,11 +2199,22 @@ def implied_facts(guards):
                 facts.add(("bool", cond, truth))
         elif isinstance(cond, Lin) and rel[0] in ("eq", "ne") and not (t in ("cmp", "not", "is", "booland", "boolor")):
             # a `match` on an integer value (`Ok(0) => ..`): the tested value equals / differs from the pattern constants
+            def pat(k_):
+                # a half of a list word matched against one of the protocol's constants is compared with that constant, whether the source names it
+                # (`== REMOVED_SEGMENT_NODE`) or uses it as a pattern (MIR keeps only the number)
+                half = cond if tag(cond) in ("hi", "lo") else (list(cond.m)[0] if isinstance(cond, Lin) and cond.c == 0 and len(cond.m) == 1 and list(cond.m.values()) == [1] else None)
+                if tag(half) == "lo" and k_ == 2**32 - 1:
+                    return ("named", "SENTINEL_SEGMENT_NODE_OFFSET", k_)
+                if tag(half) == "hi" and k_ == 2**32 - 1:
+                    return ("named", "SENTINEL_SEGMENT_NODE_SIZE", k_)
+                if tag(half) == "hi" and k_ == 0:
+                    return ("named", "REMOVED_SEGMENT_NODE", k_)
+                return const(k_)
             if rel[0] == "eq":
-                facts |= implied_facts([(("cmp", "Eq", cond, const(rel[1])), ("eq", 1))])
+                facts |= implied_facts([(("cmp", "Eq", cond, pat(rel[1])), ("eq", 1))])
             else:
                 for k_ in rel[1]:
-                    facts |= implied_facts([(("cmp", "Ne", cond, const(k_)), ("eq", 1))])
+                    facts |= implied_facts([(("cmp", "Ne", cond, pat(k_)), ("eq", 1))])
         elif truth is not None:
             facts.add(("bool", cond, truth))
         else:
